@@ -30,6 +30,10 @@ def build(a, rnd):
         m["cons"].append({"lb": None, "ub": 4, "lin": [], "expr": O(15, O(1, V(0), V(1)))})
     if "logic" in a["extra"]:
         m["lcons"].append(O(20, O(28, V(0), N(1)), O(28, V(2), N(1))))
+    if "sos" in a["extra"]:
+        sosno = -2 if "sos2" in a["extra"] else 1
+        m["suffixes"] = m.get("suffixes", []) + [{"kind": 0, "name": "sosno", "vals": {0: sosno, 1: sosno, 2: sosno}},
+                                                 {"kind": 0, "name": "ref", "real": True, "vals": {0: 1.0, 1: 2.0, 2: 3.0}}]
     nc = len(m["cons"])
     inp = {"x0": [rnd.randint(0, 9), rnd.randint(0, 9), rnd.randint(-4, 4)], "pri": [rnd.randint(1, 9) for _ in range(3)],
            "varstt": [rnd.choice([1, 3, 4, 2]) for _ in range(3)], "constt": [rnd.choice([1, 3, 4, 5]) for _ in range(nc)],
@@ -39,7 +43,7 @@ def build(a, rnd):
     if a["tr"] in ("inputs", "all"):
         m["x0"] = {i: v for i, v in enumerate(inp["x0"])}
         m["y0"] = {i: v for i, v in enumerate(inp["y0"])}
-        m["suffixes"] = [{"kind": 0, "name": "priority", "vals": {i: v for i, v in enumerate(inp["pri"])}},
+        m["suffixes"] = m.get("suffixes", []) + [{"kind": 0, "name": "priority", "vals": {i: v for i, v in enumerate(inp["pri"])}},
                          {"kind": 1, "name": "lazy", "vals": {i: v for i, v in enumerate(inp["lazy"])}}]
         if inp["basis_in"]:
             m["suffixes"] += [{"kind": 0, "name": "sstatus", "vals": {i: v for i, v in enumerate(inp["varstt"])}},
